@@ -5,6 +5,7 @@ package main
 // CFG is a DAG that is encoded block by block (reach predicates, versioned state).
 
 import (
+	"hash/fnv"
 	"fmt"
 	"go/constant"
 	"go/token"
@@ -786,6 +787,11 @@ func (t *fnTrans) term(v Val) Term {
 		if p.Ref != "" && p.ArrOf == "" && len(p.Sels) == 0 {
 			return p.Ref
 		}
+		// address of a field of a heap object: a function of the object and the field
+		if r := t.fieldAddrTerm(p); r != "" {
+			t.assume(fmt.Sprintf("(> %s 0)", r))
+			return r
+		}
 		// interior or local address escaping into a first-class value
 		r := t.fresh("addr", "Int")
 		t.assume(fmt.Sprintf("(> %s 0)", r))
@@ -1505,5 +1511,32 @@ func (t *fnTrans) newRef() Term {
 	r := t.fresh("new", "Int")
 	t.define(fmt.Sprintf("(= %s (+ %s 1))", r, a))
 	t.setVar("alloc", r)
+	return r
+}
+
+// fieldAddrID: a stable number for (struct type, field) used by the uninterpreted `fieldaddr`.
+func fieldAddrID(sty types.Type, s *types.Struct, fi int) uint32 {
+	name := ""
+	if sty != nil {
+		name = types.TypeString(sty, nil)
+	} else {
+		name = s.String()
+	}
+	h := fnv.New32a()
+	h.Write([]byte(name + "." + s.Field(fi).Name()))
+	return h.Sum32() & 0x3fffffff
+}
+
+func (t *fnTrans) fieldAddrTerm(p *Path) Term {
+	if p == nil || p.Ref == "" || p.ArrOf != "" || len(p.Sels) == 0 {
+		return ""
+	}
+	r := p.Ref
+	for _, sl := range p.Sels {
+		if sl.Index != "" || sl.Struct == nil {
+			return ""
+		}
+		r = fmt.Sprintf("(fieldaddr %d %s)", fieldAddrID(sl.SType, sl.Struct, sl.Field), r)
+	}
 	return r
 }
